@@ -32,6 +32,7 @@ type Front struct {
 	HandlerReturns bool    `json:"handler_returns,omitempty"` // HandleErr returns instead of panicking
 	NoSkipConst    bool    `json:"no_skip_const,omitempty"`
 	EarlyWrites    []int   `json:"early_writes,omitempty"` // every file is written (and the result dropped) after these body ordinals
+	LateForce      []int   `json:"late_force,omitempty"`   // after the first round of writes: force-import path LateForce[2k+1] into file LateForce[2k] (no declaration follows)
 	Rewrites       int     `json:"rewrites,omitempty"`     // extra rounds of writing every file at the end (the last round counts)
 	WriteOrder     []int   `json:"write_order,omitempty"`  // order in which the files are written at the end (permutation code)
 	XGoBuiltin     bool    `json:"xgo_builtin,omitempty"`  // XGo-style configuration: untyped big types, overloaded println, builtin-type methods
@@ -49,7 +50,7 @@ type Fault struct {
 
 const BuiltinPath = "github.com/goplus/gogen/internal/builtin"
 
-var FaultKinds = []string{"bigint_op", "discard_ref", "abort_stmt", "abort_init", "abort_endinit", "callex_err", "abort_header", "discard_reset", "vblock", "inline_closure"}
+var FaultKinds = []string{"unsafe_ref", "unit_lit", "abort_return", "bigint_op", "discard_ref", "abort_stmt", "abort_init", "abort_endinit", "callex_err", "abort_header", "discard_reset", "vblock", "inline_closure"}
 
 // Env is per-process: export data located once with the real go command, corpus with
 // the results of the acceptance dry run.
@@ -71,6 +72,11 @@ type CorpusEntry struct {
 // DiscardPaths are packages referenced only by discarded operands (never otherwise used by
 // synthetic programs), so that a leaked import is attributable.
 var DiscardPaths = []string{"encoding/json", "encoding/hex", "container/list", "hash/fnv", "bufio", "io"}
+
+// LateForcePaths are force-imported after a first round of writes (std packages the
+// synthetic programs may or may not also use by name, plus the discard-only ones).
+var LateForcePaths = []string{"errors", "sort", "encoding/json", "bytes", "os", "container/list", "strings"}
+
 var discardMember = map[string]string{"encoding/json": "Marshal", "encoding/hex": "EncodeToString", "container/list": "New", "hash/fnv": "New32", "bufio": "NewReader", "io": "EOF"}
 
 // NewEnv locates export data. corpus=false skips loading GOROOT sources.
@@ -178,14 +184,35 @@ type Result struct {
 	Imp        *imp.Importer
 	Fset       *token.FileSet
 	FaultFired map[string]int
-	Discarded  []string // import paths referenced only through discarded operands
-	FirstFile  string   // the file that was current at the start (force-imports go there)
-	XGoBuiltin bool     // the XGo-style configuration was in effect
+	Discarded  []string            // import paths referenced only through discarded operands
+	FirstFile  string              // the file that was current at the start (force-imports go there)
+	XGoBuiltin bool                // the XGo-style configuration was in effect
+	LateForced map[string][]string // file -> paths force-imported after the first write
 }
 
 // Build compiles p under front f. Every build has its own file set and importer.
 func (e *Env) Build(p *prog.Program, f *Front, hooks *minicl.Hooks) *Result {
 	return e.BuildWith(p, f, hooks, nil)
+}
+
+// BuildSalted builds p with salted synthetic import paths and removes the salt from the
+// files written, so that results of different salts are comparable.
+func (e *Env) BuildSalted(p *prog.Program, f *Front, hooks *minicl.Hooks, salt int) *Result {
+	if salt == 0 || p.Corpus != "" {
+		return e.Build(p, f, hooks)
+	}
+	r := e.Build(prog.Salted(p, salt), f, hooks)
+	for n, b := range r.Files {
+		r.Files[n] = prog.Unsalt(b, salt)
+	}
+	for n, w := range r.WriteErr {
+		r.WriteErr[n] = string(prog.Unsalt([]byte(w), salt))
+	}
+	for i, d := range r.Diags {
+		r.Diags[i] = string(prog.Unsalt([]byte(d), salt))
+	}
+	r.Rejected = string(prog.Unsalt([]byte(r.Rejected), salt))
+	return r
 }
 
 // BuildWith is Build with a callback that receives the compiler before it runs.
@@ -367,6 +394,30 @@ func (e *Env) build(p *prog.Program, f *Front, hooks *minicl.Hooks, ce *CorpusEn
 			}
 		}
 	}
+	if len(f.LateForce) >= 2 && len(worder) > 0 {
+		// every file is written once, then more packages are force-imported, then the
+		// files are written again
+		for _, name := range worder {
+			var sink bytes.Buffer
+			func() {
+				defer func() { recover() }()
+				c.Pkg.WriteTo(&sink, name)
+			}()
+		}
+		r.LateForced = map[string][]string{}
+		for k := 0; k+1 < len(f.LateForce); k += 2 {
+			file := worder[mod(f.LateForce[k], len(worder))]
+			path := LateForcePaths[mod(f.LateForce[k+1], len(LateForcePaths))]
+			old, err := c.Pkg.SetCurFile(file, true)
+			if err != nil {
+				continue
+			}
+			c.Pkg.ForceImport(path)
+			c.Pkg.RestoreCurFile(old)
+			r.LateForced[file] = append(r.LateForced[file], path)
+			r.FaultFired["late_force_import"]++
+		}
+	}
 	for round := 0; round < f.Rewrites; round++ {
 		for i := len(worder) - 1; i >= 0; i-- {
 			var sink bytes.Buffer
@@ -406,13 +457,14 @@ func mod(v, n int) int {
 }
 
 type injector struct {
-	r    *Result
-	f    *Front
-	e    *Env
-	p    *prog.Program
-	plan map[[2]int][]Fault
-	seen map[[2]int]bool
-	n    int
+	r     *Result
+	f     *Front
+	e     *Env
+	p     *prog.Program
+	plan  map[[2]int][]Fault
+	count map[[2]int]int
+	fired map[*Fault]bool
+	n     int
 }
 
 func (in *injector) inject(c *minicl.Compiler, unit, stmt, depth int) {
@@ -421,15 +473,23 @@ func (in *injector) inject(c *minicl.Compiler, unit, stmt, depth int) {
 	if len(fs) == 0 {
 		return
 	}
-	if in.seen == nil {
-		in.seen = map[[2]int]bool{}
+	if in.count == nil {
+		in.count = map[[2]int]int{}
+		in.fired = map[*Fault]bool{}
 	}
-	if in.seen[key] {
-		return // fire once per position (the same ordinal recurs in nested blocks)
-	}
-	in.seen[key] = true
-	for _, ft := range fs {
-		in.fire(c, ft)
+	// the same statement ordinal recurs in nested blocks and closures of the unit: a fault
+	// fires at the k-th occurrence, k from its argument, so that nested bodies (closures
+	// opened with operands pending) are reached too
+	in.count[key]++
+	for i := range fs {
+		ft := &fs[i]
+		if in.fired[ft] {
+			continue
+		}
+		if in.count[key] == 1+mod(ft.Arg/4, 3) {
+			in.fired[ft] = true
+			in.fire(c, *ft)
+		}
 	}
 }
 
@@ -493,6 +553,28 @@ func (in *injector) fire(c *minicl.Compiler, ft Fault) {
 			c.B.ResetInit()
 			c.B.ResetStmt()
 		}
+	case "abort_return":
+		// the operands of a return statement failed to compile: Return(n) is still issued
+		fn := cb.Func()
+		if fn == nil {
+			in.r.FaultFired[ft.Kind]--
+			return
+		}
+		sig, _ := fn.Type().(*types.Signature)
+		if sig == nil || sig.Results().Len() == 0 {
+			in.r.FaultFired[ft.Kind]--
+			return
+		}
+		// inside a conditional, so that the rest of the body stays reachable
+		c.B.If()
+		c.B.Val(c.Pkg.Import("strconv").Ref("Itoa"))
+		c.B.Val(ft.Arg)
+		c.B.Call(1, false)
+		c.B.Val("x")
+		c.B.BinaryOp(token.EQL)
+		c.B.Then()
+		c.B.ReturnShort(sig.Results().Len())
+		c.B.End()
 	case "abort_endinit":
 		// the initialiser itself is fine, EndInit fails (names vs. values). EndInit's deferred
 		// cleanup pops the operands and ends the initialiser context even then; the
@@ -524,6 +606,31 @@ func (in *injector) fire(c *minicl.Compiler, ft Fault) {
 		} else {
 			c.B.ResetStmt()
 		}
+	case "unsafe_ref":
+		// not a fault: package unsafe imported by path (every importer answers with the
+		// process-wide types.Unsafe)
+		c.B.DefineVarStart(token.NoPos, fmt.Sprintf("zzS%d", in.n))
+		in.n++
+		c.B.Val(c.Pkg.Import("unsafe").Ref("Sizeof"))
+		c.B.Val(ft.Arg)
+		c.B.Call(1, false)
+		c.B.EndInit(1)
+	case "unit_lit":
+		// not a fault: a literal with a unit of a type from a synthetic XGo package
+		if len(in.p.XGo) == 0 {
+			in.r.FaultFired[ft.Kind]--
+			return
+		}
+		x := in.p.XGo[mod(ft.Arg, len(in.p.XGo))]
+		o := c.Pkg.Import(x.Path).TryRef("Dist")
+		if o == nil {
+			in.r.FaultFired[ft.Kind]--
+			return
+		}
+		c.B.DefineVarStart(token.NoPos, fmt.Sprintf("zzU%d", in.n))
+		in.n++
+		c.B.ValWithUnit(fmt.Sprint(2+mod(ft.Arg, 7)), o.Type(), []string{"m", "cm", "m", "mm", "m"}[mod(ft.Arg, 5)])
+		c.B.EndInit(1)
 	case "bigint_op":
 		// not a fault: untyped big-number arithmetic (XGo configuration only)
 		if !in.r.XGoBuiltin {
@@ -637,3 +744,9 @@ func trimStack(st string) string {
 
 // Names0 is the file that received the force-imports.
 func (r *Result) Names0() string { return r.FirstFile }
+
+// SharedScopes is the content of go/types' process-wide scopes; nothing a build does may
+// change it (it is shared with every other build and every other user of go/types).
+func SharedScopes() string {
+	return strings.Join(types.Universe.Names(), ",") + "|" + strings.Join(types.Unsafe.Scope().Names(), ",")
+}
